@@ -253,9 +253,8 @@ def jobs_C02(tier, seed, want='C02', dsts=('path', 'seekable', 'nonseekable', 's
             s = scn([T_dl(dst, key)], cfg(multipart_chunksize=c_, io_chunksize=io, max_request_concurrency=2,
                                           max_in_memory_download_chunks=2, num_download_attempts=2 if tier == 'quick' else 3),
                     seed=seed, faults={'sites': ['stream:retryable', 'stream:short'], 'short_sizes': [1]})
-            deep = tier != 'quick' and dst == 'nonseekable' and key == 'o6'
             jobs.append(job(f'sched+fault+short dl {dst} {key} c={c_} io={io}', s,
-                            {'sched': 2, 'env': 2} if deep else {'sched': 1, 'env': 2 if tier == 'quick' or dst != 'nonseekable' else 3},
+                            {'sched': 1, 'env': 2 if tier == 'quick' or dst != 'nonseekable' else 3},
                             want, max_execs=600000))
     return jobs
 
@@ -337,12 +336,12 @@ def jobs_C04(tier, seed):
     core = ['up-mp-nonseekable', 'up-single-path', 'dl-ranged-path', 'dl-ranged-nonseekable',
             'dl-single-nonseekable', 'copy-mp', 'delete']
     # (i) all 2^7 settings of the limits at bound 0 (all non-preemptive schedules: forced switches free)
-    names_i = ['up-mp-nonseekable', 'dl-ranged-nonseekable', 'dl-ranged-path'] if tier == 'quick' else core
+    names_i = ['up-mp-nonseekable', 'dl-ranged-nonseekable', 'dl-ranged-path'] if tier == 'quick' else core[:5]
     for name in names_i:
         for lim in limit_settings():
             s = scn(copy.deepcopy(bt[name]), cfg(**lim), seed=seed)
             jobs.append(job(f'limits {name} {tuple(lim.values())}', s, 0, want, forced_cost=0,
-                            max_execs=3000 if tier == 'quick' else 30000))
+                            max_execs=3000 if tier == 'quick' else 10000))
     # pairs of transfers on the all-ones manager
     ones = {k: 1 for k in next(limit_settings())}
     for a, b in (('up-mp-nonseekable', 'dl-ranged-nonseekable'), ('dl-ranged-path', 'copy-mp'),
